@@ -12,6 +12,7 @@ package main
 
 import (
 	"go/types"
+	"reflect"
 	"sort"
 	"strings"
 	"unicode/utf8"
@@ -93,6 +94,79 @@ func (t *protoTag) String() string         { return "protobuf-model-" + t.kind }
 
 var protoMTTag, protoMsgTag = &protoTag{kind: "MessageType"}, &protoTag{kind: "Message"}
 
+// descriptors found by name in protoregistry.GlobalFiles: one tag per kind of element of a .proto file
+var protoDescTags = map[string]*protoTag{
+	"MessageDescriptor": {kind: "MessageDescriptor"}, "FieldDescriptor": {kind: "FieldDescriptor"},
+	"ServiceDescriptor": {kind: "ServiceDescriptor"}, "MethodDescriptor": {kind: "MethodDescriptor"},
+}
+
+// hasInterface: the protoreflect interface types a model value can be asserted to.
+func (t *protoTag) hasInterface(name string) bool {
+	if strings.HasSuffix(t.kind, "Descriptor") {
+		return name == t.kind || name == "Descriptor"
+	}
+	return name == t.kind
+}
+
+// protoDescriptors: full name -> kind of every element the module's .proto files declare, recovered from the
+// generated code: messages (types with the VT codec), their fields (the name= part of the protobuf struct tag),
+// services (interfaces DRPC<Name>Server) and their methods.
+func (w *World) protoDescriptors() map[string]string {
+	msgs := w.protoTypes()
+	w.mu.Lock()
+	defer w.mu.Unlock()
+	if w.protoDesc != nil {
+		return w.protoDesc
+	}
+	d := map[string]string{}
+	for name, n := range msgs {
+		d[name] = "MessageDescriptor"
+		if st, ok := n.Underlying().(*types.Struct); ok {
+			for i := 0; i < st.NumFields(); i++ {
+				for _, part := range strings.Split(reflect.StructTag(st.Tag(i)).Get("protobuf"), ",") {
+					if strings.HasPrefix(part, "name=") {
+						d[name+"."+strings.TrimPrefix(part, "name=")] = "FieldDescriptor"
+					}
+				}
+			}
+		}
+	}
+	for _, pk := range w.pkgs {
+		if pk == nil || pk.Pkg == nil || !strings.HasPrefix(pk.Pkg.Path(), w.modPath) {
+			continue
+		}
+		for mname, m := range pk.Members {
+			t, ok := m.(*ssa.Type)
+			if !ok || !strings.HasPrefix(mname, "DRPC") || !strings.HasSuffix(mname, "Server") || strings.Contains(mname, "_") {
+				continue
+			}
+			it, ok := t.Type().Underlying().(*types.Interface)
+			if !ok {
+				continue
+			}
+			svc := pk.Pkg.Name() + "." + strings.TrimSuffix(strings.TrimPrefix(mname, "DRPC"), "Server")
+			d[svc] = "ServiceDescriptor"
+			for i := 0; i < it.NumMethods(); i++ {
+				if mn := it.Method(i).Name(); !strings.HasPrefix(mn, "DRPC") {
+					d[svc+"."+mn] = "MethodDescriptor"
+				}
+			}
+		}
+	}
+	w.protoDesc = d
+	return d
+}
+
+// protoNotFound is the value of protoregistry.NotFound (a sentinel the lookups return and callers compare with).
+func (e *Exec) protoNotFound(fr *frame, what string) Value {
+	if p := e.w.prog.ImportedPackage("google.golang.org/protobuf/reflect/protoregistry"); p != nil {
+		if g, ok := p.Members["NotFound"].(*ssa.Global); ok {
+			return *e.global(g)
+		}
+	}
+	return opaqueErr(e, fr, []Value{"proto: not found: " + what})
+}
+
 // protoTagMethod dispatches an interface method call on one of the model's tag values.
 func protoTagMethod(tag *protoTag, v Value, name string) hostFn {
 	return func(e *Exec, fr *frame, a []Value) Value {
@@ -163,9 +237,20 @@ func init() {
 		}
 		n := e.w.protoTypes()[name]
 		if n == nil {
-			return tuple{iface{}, opaqueErr(e, fr, []Value{"proto: not found: " + name})}
+			return tuple{iface{}, e.protoNotFound(fr, name)}
 		}
 		return tuple{iface{t: protoMTTag, v: n}, iface{}}
+	}
+	intrinsics["(*google.golang.org/protobuf/reflect/protoregistry.Files).FindDescriptorByName"] = func(e *Exec, fr *frame, a []Value) Value {
+		name, ok := a[len(a)-1].(string)
+		if !ok {
+			e.unsupported("FindDescriptorByName with a symbolic name")
+		}
+		kind, found := e.w.protoDescriptors()[name]
+		if !found {
+			return tuple{iface{}, e.protoNotFound(fr, name)}
+		}
+		return tuple{iface{t: protoDescTags[kind], v: name}, iface{}}
 	}
 	intrinsics["google.golang.org/protobuf/proto.Unmarshal"] = func(e *Exec, fr *frame, a []Value) Value {
 		n, i := e.protoMsgType(a[1])
